@@ -53,7 +53,9 @@ def nonlin_cases(ctx):
 def spline_cases(ctx):
     inf = float('inf')
     out = []
-    mags = [1e-2, 1.0, 32.0, 100.0, 1e4] if ctx.quick() else [1e-2, 0.5, 1.0, 3.0, 32.0, 100.0, 1e3, 1e4]
+    # bounds include non-dyadic values whose float32 rounding is LARGER in magnitude than the double (0.1, 0.3, 10.1) and smaller (0.7, 1e-2):
+    # a bound held as a Python double must be compared in the precision of the inputs
+    mags = [1e-2, 0.1, 0.3, 0.7, 1.0, 10.1, 32.0, 100.0, 1e4] if ctx.quick() else [1e-2, 0.1, 0.3, 0.5, 0.7, 1.0, 3.0, 3.3, 10.1, 32.0, 100.0, 1e3, 1e4]
     for fam in S.FAMS:
         for tails in (False, True):
             for prec in ('f64', 'f32'):
